@@ -44,11 +44,17 @@ CLAIMS = {
  "C18": ("Bounded symbolic verification of the snapshot restore protocol on the ORCH composition in init-caching mode: symbolic runtime behaviour (hook ok / restore error / legacy init error / stalled hook / no restore poll / exit), symbolic error type (SMT strings) and presented credentials token: result of HandleRestore per behaviour, sanitised error type, no release of a runtime parked in next, credentials served only for the generated token, not in the environment, and reflecting the most recent restore.",
          "Trusted: gosmt SSA semantics/intrinsics; hook timeout is a logical timer firing at quiescence; the wall-clock bound is outside.",
          TECH + "; ORCH harness in snapshot mode"),
+ "C14": ("Bounded symbolic verification of the size limit on the FULL composition with symbolic multi-megabyte lengths: a response longer than 6 MiB+100 is refused to the runtime with 413, the caller gets Function.ResponseSizeTooLarge stating both sizes and none of the payload, the same environment then delivers a response of at most the limit intact without reset, and an event longer than the limit is cut at the limit on every poll.",
+         "Trusted: gosmt SSA semantics, sequence contracts for io/bytes, json encoder contract; cvc5 + z3 portfolio for the length reasoning.",
+         TECH + " + cvc5 portfolio; symbolic payload lengths"),
+ "C16": ("Bounded symbolic verification of the environment builder with the SMT string theory: the real env package run on a symbolic customer key (free to collide with every reserved key) and symbolic values; reserved values win, unshadowed variables arrive unchanged, extensions never see '_' names or the X-Ray exclusions, both get the stored Runtime API address; KEY=VALUE split at the first '='.",
+         "Trusted: gosmt SSA semantics, symbolic-key map case split; one symbolic + one concrete customer key; process environment stubbed. Address truthfulness w.r.t. the listening socket is outside.",
+         TECH + " strings (cvc5 primary)"),
  "C17": ("Bounded symbolic verification of the direct-invoke path: relational statelessness of ReceiveDirectInvoke from havocked package variables vs a fresh process; token/header validation; Complete/Oversized/Truncated classification for symbolic payload length, limit and copy fault; token-bucket inductive lemma; chunk partition; the writer with its real ticker goroutine.",
          "Trusted: gosmt SSA semantics and contracts for io/bytes/http.Header/strconv.ParseInt (uninterpreted)/time.Ticker/channels; <=3 chunks, ticker unwound 4 times, <=1/2 delays; streaming reset path not encoded.",
          TECH + "; relational and inductive harnesses"),
- "C20": ("Bounded symbolic verification with the SMT string theory: GetValidRuntimeOrFunctionErrorType on an arbitrary printable-ASCII string of unbounded length against the exact-form specification (regular-expression membership); unsat = holds for every string.",
-         "Trusted: translation of the constant regexp to SMT-LIB RegLan, z3 string solver. Error-cause JSON and runtime-release parts are not yet in the check.",
+ "C20": ("Bounded symbolic verification with the SMT string theory: (1) GetValidRuntimeOrFunctionErrorType on an arbitrary printable-ASCII string of unbounded length against the exact-form specification (regular-expression membership); (2) the runtime identity string for user agent absent/token/token+text and 0..3 feature tokens of symbolic length: bracket form and the 128-byte bound, and immutability once features were appended; (3) error cause: all-empty / invalid documents dropped, recognised fields passed on, cropString prefix+mark for symbolic string and length.",
+         "Trusted: regexp -> RegLan translation, structural strings.Fields/ReplaceAll on declared tokens, cvc5/z3 string solvers. NOT claimed: the 64 KiB bound of the re-marshalled error cause under JSON escaping (both solvers time out).",
          TECH + " strings/regex"),
 }
 
